@@ -54,7 +54,12 @@ Fixpoint fs_del_session (rid : bytes) (st : fs_state) : fs_state :=
 Inductive fs_json := JBad | JNull | JMsg.
 
 (* what the handler behind an accepted first message does (oracle) *)
-Inductive fs_handler := HRefuseSilent | HRefuseReply | HAccept (rid : bytes).
+Inductive fs_handler :=
+| HRefuseSilent | HRefuseReply | HAccept (rid : bytes)
+| HCrash.   (* the handler panics.  handleConnection runs in a goroutine without recover, so the process
+               dies and every session with it.  Only NewControl behind an authenticated Login allocates
+               from a peer-supplied integer (make(chan, poolCount+10)); Model/FrameSysLogin.v computes the
+               oracle for it from the translated clamp and Properties/C17.v proves it is never HCrash. *)
 
 Record fs_first_ev := {
   fe_conn : Z;                      (* identity of the connection the bytes arrive on *)
@@ -67,7 +72,7 @@ Record fs_first_ev := {
   fe_handler : fs_handler           (* oracle: what Register{Control,WorkConn,VisitorConn} answers *)
 }.
 
-Inductive fs_close := KeepOpen | CloseNow | CloseAtTimeout | CloseTlsFail.
+Inductive fs_close := KeepOpen | CloseNow | CloseAtTimeout | CloseTlsFail | ServerDown.
 Inductive fs_reply :=
 | RNone | RLoginOk | RLoginErr | RStartWorkConnErr | RVisitorOk | RVisitorErr
 | RTlsAny.   (* whatever the TLS / websocket library writes while failing a handshake (an alert, a 400, nothing) *)
@@ -118,18 +123,20 @@ Section FirstBytes.
               | HAccept rid => Some (fs_ins_session rid st, fs_closed ev KeepOpen RLoginOk ActLogin)
               | HRefuseReply => Some (st, fs_closed ev CloseNow RLoginErr ActLogin)
               | HRefuseSilent => None
+              | HCrash => Some ([], fs_closed ev ServerDown RNone ActLogin)   (* every session is gone *)
               end
           | ActWorkConn =>
               match fe_handler ev with
               | HAccept _ => Some (st, fs_closed ev KeepOpen RNone ActWorkConn)
               | HRefuseReply => Some (st, fs_closed ev CloseNow RStartWorkConnErr ActWorkConn)
               | HRefuseSilent => Some (st, fs_closed ev CloseNow RNone ActWorkConn)
+              | HCrash => None
               end
           | ActVisitor =>
               match fe_handler ev with
               | HAccept _ => Some (st, fs_closed ev KeepOpen RVisitorOk ActVisitor)
               | HRefuseReply => Some (st, fs_closed ev CloseNow RVisitorErr ActVisitor)
-              | HRefuseSilent => None
+              | HRefuseSilent | HCrash => None
               end
           | ActClose => Some (st, fs_closed ev CloseNow RNone ActClose)
           end
